@@ -54,6 +54,25 @@ pub struct OriginalSourceMap {
     pub source_map_comment: Option<String>,
 }
 
+const DATA_URL_JSON: &str = "data:application/json;";
+const DATA_URL_BASE64: &str = "base64,";
+
+/// Inline source maps usually carry a charset parameter
+/// (`data:application/json;charset=utf-8;base64,...`) that `decode_data_url` does not know.
+fn decode_inline_source_map(url: &str) -> swc::sourcemap::Result<DecodedMap> {
+    if let Some(rest) = url.strip_prefix(DATA_URL_JSON) {
+        if let Some((params, data)) = rest.split_once(DATA_URL_BASE64) {
+            let only_charset = params.split(';').all(|param| {
+                param.is_empty() || param.trim().to_ascii_lowercase().starts_with("charset=")
+            });
+            if !params.is_empty() && only_charset {
+                return decode_data_url(&format!("{DATA_URL_JSON}{DATA_URL_BASE64}{data}"));
+            }
+        }
+    }
+    decode_data_url(url)
+}
+
 pub struct Config {
     pub chain_source_map: bool,
     pub print_comments: bool,
@@ -335,7 +354,7 @@ fn extract_source_map<R: Read>(
         let trim_comment = comment.text.trim();
         source_map_comment = Some(String::from(comment.text.as_str()));
         let url = trim_comment.get(SOURCE_MAP_URL.len()..).unwrap();
-        source = decode_data_url(url)
+        source = decode_inline_source_map(url)
             .map_err(Error::new)
             .or_else(|_| {
                 let source_path = PathBuf::from(url);
